@@ -537,4 +537,167 @@ theorem between_of_evenOdd {poly : List (α × α)} {pt : α × α} (hnd : poly.
     have h1 : ¬ pt.1 < xint pt.2 f.1 f.2 := fun h => hc (lt_of_lt_of_le h hord)
     simp [h1, hc] at hin
 
+theorem xint_at_top {y : α} {p1 p2 : α × α} (h : p2.2 = y) (hne : p2.2 - p1.2 ≠ 0) : xint y p1 p2 = p2.1 := by
+  unfold xint; rw [← h]; field_simp; ring
+
+theorem xint_at_start {y : α} {p1 p2 : α × α} (h : p1.2 = y) : xint y p1 p2 = p1.1 := by
+  unfold xint; rw [h, sub_self, zero_mul, zero_div, add_zero]
+
+/-- the even-odd rule accepts a point off the boundary of a strictly convex polygon only if the point is strictly
+left of every edge -/
+theorem leftOfAll_of_evenOdd {poly : List (α × α)} {pt : α × α} (hnd : poly.Nodup)
+    (hcv : StrictConvexCCW poly) (hfar : Far 0 poly pt) (hin : evenOdd poly pt = true) : LeftOfAll poly pt := by
+  obtain ⟨e, he, f, hf, hup, hdn, hxf, hxe⟩ :=
+    between_of_evenOdd hnd hcv (far_offEdges (le_refl 0) hfar) hin
+  intro g hg
+  set y := pt.2 with hy
+  set x := pt.1 with hx
+  set xe := xint y e.1 e.2 with hxe_def
+  set xf := xint y f.1 f.2 with hxf_def
+  have hge : 0 ≤ cross g.1 g.2 (xe, y) := level_point_nonneg hcv hg he (isUp_straddle hup)
+  have hgf : 0 ≤ cross g.1 g.2 (xf, y) := level_point_nonneg hcv hg hf (isDown_straddle hdn)
+  have hd : 0 < xe - xf := by linarith
+  set lam := (x - xf) / (xe - xf) with hlam
+  have hl0 : 0 < lam := div_pos (by linarith) hd
+  have hl1 : lam < 1 := (div_lt_one hd).mpr (by linarith)
+  have hpt : pt = (((xf, y) : α × α).1 + lam * (((xe, y) : α × α).1 - ((xf, y) : α × α).1),
+      ((xf, y) : α × α).2 + lam * (((xe, y) : α × α).2 - ((xf, y) : α × α).2)) := by
+    apply Prod.ext
+    · simp only [hlam]; field_simp; ring
+    · simp [hy]
+  have hcomb : cross g.1 g.2 pt = (1 - lam) * cross g.1 g.2 (xf, y) + lam * cross g.1 g.2 (xe, y) := by
+    conv_lhs => rw [hpt]
+    exact cross_affine _ _ _ _ _
+  have hnn : 0 ≤ cross g.1 g.2 pt := by
+    rw [hcomb]
+    have := mul_nonneg (by linarith : 0 ≤ 1 - lam) hgf
+    have := mul_nonneg hl0.le hge
+    linarith
+  rcases eq_or_lt_of_le hnn with h0 | hpos
+  swap
+  · exact hpos
+  exfalso
+  -- both level points are on the line of `g`
+  have t1 : 0 ≤ (1 - lam) * cross g.1 g.2 (xf, y) := mul_nonneg (by linarith) hgf
+  have t2 : 0 ≤ lam * cross g.1 g.2 (xe, y) := mul_nonneg hl0.le hge
+  have z1 : cross g.1 g.2 (xf, y) = 0 := by
+    have : (1 - lam) * cross g.1 g.2 (xf, y) = 0 := by linarith
+    rcases mul_eq_zero.mp this with h | h
+    · linarith
+    · exact h
+  have z2 : cross g.1 g.2 (xe, y) = 0 := by
+    have : lam * cross g.1 g.2 (xe, y) = 0 := by linarith
+    rcases mul_eq_zero.mp this with h | h
+    · linarith
+    · exact h
+  -- hence `g` is horizontal
+  have hdy : g.2.2 - g.1.2 = 0 := by
+    have : (g.2.2 - g.1.2) * (xe - xf) = 0 := by
+      have := z1; have := z2; unfold cross at z1 z2; simp only at z1 z2; linarith
+    rcases mul_eq_zero.mp this with h | h
+    · exact h
+    · linarith
+  obtain ⟨ha1, ha2⟩ := isUp_iff.mp hup      -- e.1 strictly below, e.2 not
+  obtain ⟨hc1, hc2⟩ := isDown_iff.mp hdn    -- f.2 strictly below, f.1 not
+  have hcross_g : ∀ v : α × α, cross g.1 g.2 v = (g.2.1 - g.1.1) * (v.2 - g.1.2) := by
+    intro v; unfold cross; rw [hdy]; ring
+  have hlev : (g.2.1 - g.1.1) * (y - g.1.2) = 0 := by rw [hcross_g] at z1; exact z1
+  -- the vertex below the level is strictly left of `g` unless it is an end point of `g`
+  have hA : e.1 = g.1 ∨ e.1 = g.2 ∨ 0 < (g.2.1 - g.1.1) * (e.1.2 - g.1.2) := by
+    by_cases h1 : e.1 = g.1
+    · exact Or.inl h1
+    by_cases h2 : e.1 = g.2
+    · exact Or.inr (Or.inl h2)
+    exact Or.inr (Or.inr (hcross_g e.1 ▸ hcv g hg e.1 (mem_edges he).1 h1 h2))
+  have hB := convex_nonneg hcv hg (mem_edges he).2
+  have hC := convex_nonneg hcv hg (mem_edges hf).1
+  rw [hcross_g] at hB hC
+  -- level of `g`
+  have hgy : g.1.2 = y := by
+    rcases mul_eq_zero.mp hlev with h | h
+    · -- `g` degenerate: all crosses vanish, so both ends of `e` coincide with it
+      exfalso
+      have hz : ∀ v : α × α, cross g.1 g.2 v = 0 := by intro v; rw [hcross_g, h, zero_mul]
+      have hg12 : g.1 = g.2 := Prod.ext (by linarith) (by linarith)
+      have e1 : e.1 = g.1 := by
+        by_contra hne
+        exact absurd (hcv g hg e.1 (mem_edges he).1 hne (hg12 ▸ hne)) (by rw [hz]; exact lt_irrefl 0)
+      have e2 : e.2 = g.1 := by
+        by_contra hne
+        exact absurd (hcv g hg e.2 (mem_edges he).2 hne (hg12 ▸ hne)) (by rw [hz]; exact lt_irrefl 0)
+      rw [e1, ← e2] at ha1; linarith
+    · linarith
+  have hg2y : g.2.2 = y := by linarith
+  have hdx : g.2.1 - g.1.1 < 0 := by
+    rcases hA with h | h | h
+    · rw [h, hgy] at ha1; exact absurd ha1 (lt_irrefl _)
+    · rw [h, hg2y] at ha1; exact absurd ha1 (lt_irrefl _)
+    · rw [hgy] at h
+      by_contra hc
+      have := mul_nonpos_of_nonneg_of_nonpos (not_lt.mp hc) (by linarith : e.1.2 - y ≤ 0)
+      linarith
+  rw [hgy] at hB hC
+  have hb2 : e.2.2 = y := by
+    by_contra hne
+    have : 0 < e.2.2 - y := lt_of_le_of_ne (by linarith) (fun h => hne (by linarith))
+    have := mul_neg_of_neg_of_pos hdx this
+    linarith
+  have hc2' : f.1.2 = y := by
+    by_contra hne
+    have : 0 < f.1.2 - y := lt_of_le_of_ne (by linarith) (fun h => hne (by linarith))
+    have := mul_neg_of_neg_of_pos hdx this
+    linarith
+  have hbg : e.2 = g.1 ∨ e.2 = g.2 := by
+    by_contra hc
+    push Not at hc
+    have := hcv g hg e.2 (mem_edges he).2 hc.1 hc.2
+    rw [hcross_g, hb2, hgy, sub_self, mul_zero] at this
+    exact lt_irrefl 0 this
+  have hcg : f.1 = g.1 ∨ f.1 = g.2 := by
+    by_contra hc
+    push Not at hc
+    have := hcv g hg f.1 (mem_edges hf).1 hc.1 hc.2
+    rw [hcross_g, hc2', hgy, sub_self, mul_zero] at this
+    exact lt_irrefl 0 this
+  have hxe' : xe = e.2.1 := xint_at_top hb2 (straddle_ne (isUp_straddle hup))
+  have hxf' : xf = f.1.1 := xint_at_start hc2'
+  -- the point lies on the segment `g`
+  have hbetween : min g.1.1 g.2.1 ≤ x ∧ x ≤ max g.1.1 g.2.1 := by
+    rw [hxe'] at hxe; rw [hxf'] at hxf
+    rcases hbg with hb | hb <;> rcases hcg with hc | hc
+    · rw [hb] at hxe; rw [hc] at hxf; linarith
+    · rw [hb] at hxe; rw [hc] at hxf
+      exact ⟨(min_le_right _ _).trans hxf.le, hxe.le.trans (le_max_left _ _)⟩
+    · rw [hb] at hxe; rw [hc] at hxf
+      exact ⟨(min_le_left _ _).trans hxf.le, hxe.le.trans (le_max_right _ _)⟩
+    · rw [hb] at hxe; rw [hc] at hxf; linarith
+  obtain ⟨t, ht0, ht1, ht⟩ := exists_param hbetween.1 hbetween.2
+  rcases hfar g hg t ht0 ht1 with h | h
+  · rw [ht, sub_self, abs_zero] at h; exact lt_irrefl 0 h
+  · rw [hdy, mul_zero, add_zero, hgy, sub_self, abs_zero] at h; exact lt_irrefl 0 h
+
+theorem far_mono {a b : α} {poly : List (α × α)} {pt : α × α} (hab : a ≤ b) (h : Far b poly pt) : Far a poly pt := by
+  intro e he t h0 h1
+  rcases h e he t h0 h1 with h | h
+  · exact Or.inl (lt_of_le_of_lt hab h)
+  · exact Or.inr (lt_of_le_of_lt hab h)
+
+theorem cross_swap (p1 p2 q : α × α) : cross p2 p1 q = -cross p1 p2 q := by unfold cross; ring
+
+/-- left of every edge of the reversed polygon = right of every edge of the polygon -/
+theorem leftOfAll_reverse {poly : List (α × α)} {pt : α × α} :
+    LeftOfAll poly.reverse pt ↔ ∀ e ∈ edges poly, cross e.1 e.2 pt < 0 := by
+  have hperm := edges_reverse_perm poly
+  constructor
+  · intro h e he
+    have : e.swap ∈ edges poly.reverse := hperm.symm.subset (List.mem_map.mpr ⟨e, he, rfl⟩)
+    have := h _ this
+    simp only [Prod.fst_swap, Prod.snd_swap, cross_swap e.1 e.2] at this
+    linarith
+  · intro h e he
+    obtain ⟨e', he', rfl⟩ := List.mem_map.mp (hperm.subset he)
+    have := h e' he'
+    simp only [Prod.fst_swap, Prod.snd_swap, cross_swap e'.1 e'.2]
+    linarith
+
 end HydroVerif.C15
